@@ -39,27 +39,34 @@ pub(crate) enum Directive {
     Slots(Option<Box<Expr>>),
 }
 
+/// Strips the `v` / `v-` prefix and lower-cases the first letter only
+/// (`vMyDir` is the directive `myDir`).
+fn normalize_directive_name(name: &str) -> String {
+    let name = name.strip_prefix('v').unwrap_or(name);
+    let name = name.strip_prefix('-').unwrap_or(name);
+    let mut chars = name.chars();
+    match chars.next() {
+        Some(first) => first.to_ascii_lowercase().to_string() + chars.as_str(),
+        None => String::new(),
+    }
+}
+
 pub(crate) fn parse_directive(jsx_attr: &JSXAttr, is_component: bool) -> Directive {
+    // `v-name_mod1_mod2` / `vName_mod`: every `_` part after the name is a modifier;
+    // `v-name:arg_mod`: the part before the first `_` is the argument
     let (name, argument, splitted) = match &jsx_attr.name {
         JSXAttrName::Ident(ident) => {
-            let mut splitted = ident
-                .sym
-                .trim_start_matches('v')
-                .trim_start_matches('-')
-                .split('_');
+            let mut splitted = ident.sym.split('_');
             (
-                splitted.next().unwrap_or(&*ident.sym).to_ascii_lowercase(),
-                splitted.next(),
+                normalize_directive_name(splitted.next().unwrap_or(&*ident.sym)),
+                None,
                 splitted,
             )
         }
         JSXAttrName::JSXNamespacedName(JSXNamespacedName { ns, name, .. }) => {
             let mut splitted = name.sym.split('_');
             (
-                ns.sym
-                    .trim_start_matches('v')
-                    .trim_start_matches('-')
-                    .to_ascii_lowercase(),
+                normalize_directive_name(&ns.sym),
                 Some(splitted.next().unwrap_or(&*name.sym)),
                 splitted,
             )
